@@ -159,7 +159,7 @@ class Source:
                 elif d == "elif":
                     if stack:
                         prev = stack.pop()
-                        stack.append("(elif " + rest + " after " + prev + ")")
+                        stack.append("ELSE_OF:" + prev.replace("ELSE_OF:", ""))
                 elif d == "else":
                     if stack:
                         prev = stack.pop()
@@ -170,7 +170,7 @@ class Source:
                         elif re.fullmatch(r"\w+", prev):
                             stack.append("!" + prev)
                         else:
-                            stack.append("(else of " + prev + ")")
+                            stack.append("ELSE_OF:" + prev.replace("ELSE_OF:", ""))
                 elif d == "endif":
                     if stack:
                         stack.pop()
@@ -257,11 +257,20 @@ class Source:
         return "block", None
 
     def func_at(self, pos):
+        import bisect
+        if not hasattr(self, "_fheads"):
+            self._fsorted = sorted(self.funcs, key=lambda f: f.head)
+            self._fheads = [f.head for f in self._fsorted]
+        i = bisect.bisect_right(self._fheads, pos) - 1
         best = None
-        for f in self.funcs:
-            if f.body_start <= pos <= f.body_end or f.head <= pos < f.body_start:
+        # functions do not nest (blocks inside functions are not functions), local classes are rare: look back a few entries
+        k = i
+        while k >= 0 and k >= i - 6:
+            f = self._fsorted[k]
+            if f.head <= pos <= f.body_end:
                 if best is None or f.body_start >= best.body_start:
                     best = f
+            k -= 1
         return best
 
     def class_at(self, pos):
@@ -296,6 +305,19 @@ class Source:
                 break
             i -= 1
         start = i + 1
+        # a statement guarded by  if (...) / while (...) / for (...) / else : the guarded statement starts after the head
+        while True:
+            mh = re.match(r"\s*(?:else\s+)?(if|while|for|switch)\s*\(", t[start:pos])
+            if mh:
+                rp = match_paren(t, start + mh.end() - 1)
+                if 0 < rp < pos:
+                    start = rp + 1
+                    continue
+            mh = re.match(r"\s*(else|do)\b(?!\s*if\b)", t[start:pos])
+            if mh and start + mh.end() <= pos:
+                start += mh.end()
+                continue
+            break
         j, depth = end, 0
         n = len(t)
         while j < n:
@@ -540,6 +562,8 @@ class Scanner:
                 a.append("ACompiledOut")
             elif re.fullmatch(r"!\w+", g) and g[1:] in BUILTIN_ON:
                 a.append("ACompiledOut")
+            elif g.startswith("ELSE_OF:") and g[8:] in BUILTIN_ON:
+                a.append("ACompiledOut")
         if self.dead_code(src, pos):
             a.append("ADeadCode")
         return sorted(set(a))
@@ -556,6 +580,15 @@ class Scanner:
             return False
         if name in ("main",) or name.startswith("operator") or len(name) < 4:
             return False
+        ck = (src.rel, name, span)
+        if not hasattr(self, "_dead"):
+            self._dead = {}
+        if ck in self._dead:
+            return self._dead[ck]
+        self._dead[ck] = self._dead_uncached(src, name, span)
+        return self._dead[ck]
+
+    def _dead_uncached(self, src, name, span):
         rx = re.compile(r"\b" + re.escape(name) + r"\b")
         for s in self.sources:
             for m in rx.finditer(s.bare):
@@ -576,7 +609,7 @@ class Scanner:
                 "greater_equal": "KPtrOrderFunctor", "hash": "KPtrHashFunctor"}
     MEMBERSHIP = {"find", "count", "contains", "insert", "emplace", "erase", "clear", "at", "end", "cend", "size", "empty", "reserve",
                   "try_emplace", "insert_or_assign", "has", "peek", "remove", "swap", "max_size", "emplace_hint", "rehash", "bucket_count",
-                  "growTo", "elems", "extract_nothing"}
+                  "growTo", "elems", "getOrNull", "getSize"}
     ITERATION = {"begin", "cbegin", "rbegin", "rend", "crbegin", "crend", "getKeys", "getKeysAndVals", "getKeysAndValsPtrs", "top", "pop",
                  "front", "back", "extract", "merge", "bucket", "key_comp", "value_comp"}
     ORDERQ = {"lower_bound", "upper_bound", "equal_range"}
@@ -752,6 +785,8 @@ class Scanner:
                 args = split_top(t[lp + 1:rp])
                 if not args or not args[0]:
                     continue
+                if f and f.name.split("::")[-1] in ("sort", "selectionSort") and s.rel.endswith("mtl/Sort.h"):
+                    continue      # the generic routine itself: its comparator is the template parameter examined at every call site
                 examined += 1
                 std = bool(m.group(1)) or re.search(r"\.\s*begin\s*\(\s*\)\s*$", args[0]) is not None
                 ncont = 2 if std and m.group(2) != "partial_sort" and m.group(2) != "nth_element" else (3 if std else 1)
@@ -786,10 +821,18 @@ class Scanner:
         ty = None
         if m:
             ty = self.var_type(s, f, m.group(1))
+            if ty is not None and re.fullmatch(r"(const\s+)?auto(\s*const)?\s*[&*]*", ty.strip()) and f:
+                mi = re.search(r"\b" + re.escape(m.group(1)) + r"\s*=\s*([^;]+);", s.bare[f.head:f.body_end])
+                ty = None
+                if mi:
+                    init = re.sub(r"\s+", "", mi.group(1))
+                    mc = re.fullmatch(r"(?:(" + IDENT + r")(?:\.|->))?(" + IDENT + r")\(\)", init)
+                    if mc:
+                        ty = self.return_type(mc.group(2), self._class_of_var(s, f, mc.group(1)))
         else:
-            m = re.search(r"(?:\.|->)(" + IDENT + r")\(\)$", e)
+            m = re.search(r"(?:(" + IDENT + r")(?:\.|->))?(" + IDENT + r")\(\)$", e)
             if m:
-                ty = self.return_type(m.group(1))
+                ty = self.return_type(m.group(2), self._class_of_var(s, f, m.group(1)))
         if ty is None:
             return None
         return self.elem_of(ty)
@@ -798,7 +841,7 @@ class Scanner:
         ty = ty.strip()
         ty = re.sub(r"^(const\s+)", "", ty)
         ty = re.sub(r"\s*(const\s*)?&+$", "", ty)
-        m = re.match(r"(?:std::)?(?:vector|vec|deque|array|list|span)\s*<", ty)
+        m = re.match(r"(?:std::)?(?:vector|vec|deque|array|list|span|set|multiset|unordered_set)\s*<", ty)
         if m:
             lt = ty.index("<")
             gt = match_angle(ty + ";", lt)
@@ -828,10 +871,23 @@ class Scanner:
                 return m.group(1).strip()
         return None
 
-    def return_type(self, method):
+    def _class_of_var(self, s, f, name):
+        if not name:
+            return None
+        ty = self.var_type(s, f, name)
+        if not ty:
+            return None
+        ids = [i for i in re.findall(IDENT, ty) if i not in ("const", "std", "auto")]
+        return ids[-1] if ids else None
+
+    def return_type(self, method, cls=None):
         tys = set()
         for s in self.sources:
-            for m in re.finditer(r"((?:const\s+)?(?:[A-Za-z_][\w:]*)(?:\s*<[^;{}()]*?>)?\s*(?:const\s*)?[&*]*)\s*(?:\w+\s*::\s*)*\b" + re.escape(method) + r"\s*\([^;{}()]*\)\s*(?:const)?\s*(?:override|final|noexcept)?\s*[{;]", s.bare):
+            spans = [(0, len(s.bare))]
+            if cls:
+                spans = [(c[2], c[3]) for c in s.classes if c[0] == cls]
+            for a_, b_ in spans:
+              for m in re.compile(r"((?:const\s+)?(?:[A-Za-z_][\w:]*)(?:\s*<[^;{}()]*?>)?\s*(?:const\s*)?[&*]*)\s*(?:\w+\s*::\s*)*\b" + re.escape(method) + r"\s*\([^;{}()]*\)\s*(?:const)?\s*(?:override|final|noexcept)?\s*[{;]").finditer(s.bare, a_, b_):
                 first = re.match(r"(?:const\s+)?([A-Za-z_][\w:]*)", m.group(1)).group(1)
                 if first in ("return", "delete", "throw", "else", "case", "new"):
                     continue
@@ -908,7 +964,7 @@ class Scanner:
                 rp = match_paren(t, m.end() - 1)
                 self.add(s, m.start(), "KPtrToInt", "reinterpret_cast<%s>" % re.sub(r"\s+", " ", m.group(1)), ["AOperandPointer"],
                          re.sub(r"\s+", " ", t[m.end():rp])[:60])
-            for m in re.finditer(r"\(\s*(" + self.INT_T + r")\s*\)\s*(&\s*" + IDENT + r"|this\b|" + IDENT + r")(?!\s*\()", t):
+            for m in re.finditer(r"\(\s*(" + self.INT_T + r")\s*\)\s*(&\s*" + IDENT + r"\b|this\b|" + IDENT + r"\b)(?!\s*\()", t):
                 pre = t[max(0, m.start() - 40):m.start()]
                 if re.search(r"(\w|>|\))\s*$", pre) and not re.search(r"\b(return|case|and|or|not)\s*$", pre):
                     continue     # a call f(int)(x) or a declarator, not a cast
@@ -1020,11 +1076,11 @@ class Scanner:
 
     def consume(self, s, a, b, ident, root, mode="value"):
         """classify the statement that contains the tainted expression s.bare[a:b]; returns True when understood"""
-        t = s.bare
+        t = s.struct_txt
         sa, sb = s.statement_at(a, b)
         stmt = t[sa:sb]
         f = s.func_at(a)
-        line = re.sub(r"\s+", " ", s.code[sa:sb]).strip()[:90]
+        line = re.sub(r"\s+", " ", re.sub(r"(?m)^[ \t]*#[^\n]*", "", s.code[sa:sb])).strip()[:90]
         rel = a - sa
         if mode == "string":
             # the literal names an entropy file: the statement's call result / destination buffer is tainted
@@ -1053,7 +1109,14 @@ class Scanner:
                     self.taint_var(s, f, base.group(0), root, a)
             self.use(s, a, ident, "ASinkAssign", root, "out-parameter(s) %s; %s" % (",".join(outs), line))
             return True
-        # enclosing call chain: is the expression an argument of a call inside the statement?
+        expr = re.sub(r"\s+", "", stmt[rel:b - sa])
+        if re.fullmatch(IDENT, expr) and (re.search(r"\b" + expr + r"\s*(==|!=)\s*(NULL|nullptr)\b", stmt) or
+                                          re.match(r"\s*if\s*\(\s*!?\s*" + expr + r"\s*\)", stmt)):
+            self.use(s, a, ident, "ASinkNeutral", root, "null check of a handle; " + line)
+            return True
+        if re.fullmatch(r"\s*" + re.escape(stmt[rel:b - sa].strip()) + r"\s*;?\s*", stmt):
+            self.use(s, a, ident, "ASinkNeutral", root, "value discarded; " + line)
+            return True
         # 1. output statements
         sink = None
         if self.STDERR_RX.search(stmt):
@@ -1079,7 +1142,8 @@ class Scanner:
             target = m.group(2)
             base = re.findall(IDENT, target)
             v = base[-1] if ("::" in target or "->" in target) else base[0]
-            self.taint_var(s, f, v, root, a)
+            qual = base[-2] if ("::" in target and len(base) >= 2 and "." not in target and "->" not in target) else None
+            self.taint_var(s, f, v, root, a, qualifier=qual)
             self.use(s, a, ident, "ASinkAssign", root, "-> %s; %s" % (v, line))
             if cmp_here:
                 self.use(s, a, ident + "?cmp", "ASinkCompare", root, line)
@@ -1092,6 +1156,8 @@ class Scanner:
             if simple in self.NEUTRAL_CALLS or simple == "void":
                 self.use(s, a, ident, "ASinkNeutral", root, line)
                 return True
+            if simple in self.DEST_FIRST and argi == 0:
+                return True       # the destination buffer being written
             if simple in self.DEST_FIRST:
                 lp = stmt.find("(", callpos)
                 args = split_top(stmt[lp + 1:match_paren(stmt, lp)])
@@ -1121,6 +1187,12 @@ class Scanner:
             cands = self.func_index.get(simple, [])
             md = re.match(r"\s*((?:const\s+)?[\w:]+(?:\s*<[^;]*>)?\s*[&*]?)\s+(" + IDENT + r")\s*[({]", stmt)
             if md and md.group(2) == simple and not cands:
+                tyname = re.findall(IDENT, md.group(1).replace("const", ""))[-1]
+                if any(c[0] == tyname for x in self.sources for c in x.classes) and \
+                        any(re.search(r"[:,]\s*\w+\s*[({]", g.file.bare[g.head:g.body_start]) for g in self.func_index.get(tyname, [])):
+                    # an object of a class of this code base constructed from it: handled through the constructor's
+                    # parameters when the constructor is found, otherwise the object is tainted
+                    pass
                 self.taint_var(s, f, simple, root, a)
                 self.use(s, a, ident, "ASinkAssign", root, "-> %s (constructed from it); %s" % (simple, line))
                 return True
@@ -1226,20 +1298,47 @@ class Scanner:
             out.append(ids[-1] if len(ids) >= 2 else None)
         return out
 
-    def taint_var(self, s, f, name, root, pos, param=False):
+    def class_of(self, s, f, pos):
+        """name of the class a position belongs to (method of C, or inside the body of class C), or None"""
+        if f is not None:
+            if "::" in f.name:
+                return re.sub(r"<[^<>]*>", "", f.name).split("::")[-2]
+            if f.cls:
+                return f.cls
+        c = s.class_at(pos)
+        return c[0] if c else None
+
+    def family(self, cls):
+        """cls with its base classes and derived classes (transitively), from `class X : public Y` heads"""
+        if not hasattr(self, "_bases"):
+            self._bases = {}
+            for x in self.sources:
+                for m in re.finditer(r"\b(?:class|struct)\s+(" + IDENT + r")\s*(?:final\s*)?:\s*([^{;]+)\{", x.bare):
+                    bs = [re.findall(IDENT, b)[-1] for b in split_top(m.group(2)) if re.findall(IDENT, b)]
+                    self._bases.setdefault(m.group(1), set()).update(bs)
+        fam, work = {cls}, [cls]
+        while work:
+            c = work.pop()
+            rel = set(self._bases.get(c, ())) | {d for d, bs in self._bases.items() if c in bs}
+            for r in rel - fam:
+                fam.add(r); work.append(r)
+        return fam
+
+    def taint_var(self, s, f, name, root, pos, param=False, qualifier=None):
         if name in ("this", "std", "NULL", "nullptr"):
             return
         local = False
-        if f is not None:
+        if f is not None and not qualifier:
             if param or self._decl_type(s, f, name) is not None:
                 local = True
-        key = ("var", s.rel if local else "*", f.body_start if (local and f) else -1, name)
+        cls = None if local else (qualifier or self.class_of(s, f, pos))
+        key = ("var", s.rel if local else "*", f.body_start if (local and f) else -1, name, cls)
         if key in self.seen_uses:
             return
         self.seen_uses.add(key)
-        self.taint_work.append(("var", (s, f if local else None, name, root)))
+        self.taint_work.append(("var", (s, f if local else None, name, root, cls)))
         if not local:
-            self.ref_member_sites(name, root)
+            self.ref_member_sites(name, root, cls)
 
     def taint_func(self, f, root):
         nm = f.name.split("::")[-1]
@@ -1248,40 +1347,52 @@ class Scanner:
         self.tainted_funcs[nm] = root
         self.taint_work.append(("func", (f, root)))
 
-    def follow_var(self, s, f, name, root):
-        """every other occurrence of a tainted variable: local scope = the function, otherwise all sources (functions
-        that declare a local of the same name are skipped)"""
+    def follow_var(self, s, f, name, root, cls=None):
+        """every other occurrence of a tainted variable.  Local variable / parameter: the function.  Member of class C:
+        the methods and bodies of C, its bases and its derived classes.  Otherwise (file-scope variable): all sources.
+        Functions that declare a local of the same name are skipped."""
         rx = re.compile(r"(?<![\w])" + re.escape(name) + r"\b")
+        fam = self.family(cls) if (f is None and cls) else None
         scopes = [(s, f.head, f.body_end)] if f else [(x, 0, len(x.bare)) for x in self.sources if rx.search(x.bare)]
         for x, a, b in scopes:
-            t = x.bare
+            t = x.struct_txt
             for m in rx.finditer(t, a, b):
                 g = x.func_at(m.start())
                 if f is None:
                     if g is not None and self._decl_type(x, g, name) is not None:
                         continue
-                    if g is None:
-                        # class body: the member's declaration, or an inline accessor
-                        c = x.class_at(m.start())
-                        if c is None:
+                    if fam is not None and self.class_of(x, g, m.start()) not in fam:
+                        # object.member access from outside the class family
+                        if not re.search(r"(\.|->)\s*$", t[max(0, m.start() - 3):m.start()]):
                             continue
+                        recv = re.search(r"(" + IDENT + r")\s*(\.|->)\s*$", t[max(0, m.start() - 60):m.start()])
+                        rty = self.var_type(x, g, recv.group(1)) if recv else None
+                        if rty is None or re.findall(IDENT, rty.replace("const", ""))[-1:] and re.findall(IDENT, rty.replace("const", ""))[-1] not in fam:
+                            continue
+                    if g is None and x.class_at(m.start()) is None and fam is not None:
+                        continue
                 pre = t[max(0, m.start() - 3):m.start()]
                 if re.search(r"(\.|->)\s*$", pre) and f is not None:
                     continue      # a member of another object with the same name
-                if re.search(r"::\s*$", pre) and not re.search(r"\w\s*::\s*$", t[max(0, m.start() - 40):m.start()]):
-                    continue
-                # declaration itself / definition position
                 sa, sb = x.statement_at(m.start(), m.end())
                 stmt = t[sa:sb]
                 rel = m.start() - sa
                 after = stmt[rel + len(name):]
                 before = stmt[:rel]
-                # the variable is being (re)defined here
-                if re.match(r"\s*(\[[^\]]*\]\s*)?(=(?!=)|\+=|-=|\*=|/=)", after) and not re.search(r"[=(,]\s*$", before.rstrip()[-1:] or " "):
+                # a parameter in the head of its function
+                if g is not None and g.head <= m.start() < g.body_start and not re.search(r"\)\s*(const\s*)?(noexcept\s*)?:", t[g.head:m.start()]):
                     continue
-                if re.match(r"\s*(;|,|\)|\[\s*\w*\s*\]\s*;)", after) and re.search(r"[\w>&*]\s+[&*]?\s*$", before) and not re.search(r"\b(return|<<)\s*$", before) and (g is None or rel < 60 and not re.search(r"[=(<]", before)):
-                    continue      # plain declaration  T name;  or parameter
-                if re.match(r"\s*\(\s*(0|0\.0|)\s*\)", after) and re.search(r"[,:]\s*$", before):
+                if g is not None and g.head <= m.start() < g.body_start and re.match(r"\s*[({]", after) and re.search(r"[:,]\s*$", before):
+                    continue      # the member being initialised in a constructor head
+                # the variable is being (re)defined here
+                if re.match(r"\s*(\[[^\]]*\]\s*)?(=(?!=)|\+=|-=|\*=|/=)", after) and not re.search(r"[=(,]$", before.rstrip()[-1:] or " "):
+                    continue
+                # plain declarations:  T name;   T name[N];   T name(args);   T name{...};   T name = ...
+                if re.search(r"(?:^|[;{}(,]|\b(?:const|static|mutable|inline|struct))\s*(?:[A-Za-z_][\w:]*(?:\s*<[^;{}]*>)?)\s*(?:const\s*)?[&*]*\s*$", before) and \
+                        not re.search(r"\b(return|delete|throw|else|case|new|and|or|not)\s*$", before) and re.match(r"\s*(;|,|\)|\[|\(|\{|=(?!=))", after) and \
+                        re.search(r"[A-Za-z_>&*]\s*$", before) and not re.search(r"[(,]\s*$", before):
+                    continue
+                if re.match(r"\s*[({]\s*(0|0\.0|false|nullptr|)\s*[)}]", after) and re.search(r"[,:]\s*$", before):
                     continue      # member initialiser with a constant
                 # address taken as out-parameter of a root (already handled at the root)
                 if re.search(r"&\s*$", before) and re.search(r"\b(" + "|".join(self.OUTPARAM_ROOTS) + r")\s*\([^()]*$", before):
@@ -1310,11 +1421,13 @@ class Scanner:
                 rp = match_paren(t, m.end() - 1)
                 self.consume(x, m.start(), (rp + 1) if rp > 0 else m.end(), nm + "()", root)
 
-    def ref_member_sites(self, name, root):
+    def ref_member_sites(self, name, root, cls=None):
         """a tainted member that is a REFERENCE bound to a constructor parameter (StopWatch::timer): the variable passed
         at every construction site of the class is tainted as well"""
         for x in self.sources:
             for cname, hs, op, cl in x.classes:
+                if cls and cname != cls:
+                    continue
                 body = x.bare[op:cl]
                 if not re.search(r"&\s*" + re.escape(name) + r"\s*;", body):
                     continue
@@ -1327,17 +1440,19 @@ class Scanner:
                     if not mi or mi.group(1) not in ps:
                         continue
                     idx = ps.index(mi.group(1))
-                    rx = re.compile(r"\b" + re.escape(cname) + r"\b\s*(?:" + IDENT + r"\s*)?[({]")
+                    rx = re.compile(r"(?<![~\w])" + re.escape(cname) + r"\b\s*(?:" + IDENT + r"\s*)?[({]")
                     for y in self.sources:
                         for m in rx.finditer(y.bare):
-                            if y is x and op - 200 <= m.start() <= cl and y.func_at(m.start()) in (g, None):
+                            if re.search(r"\b(class|struct|friend)\s+$", y.bare[max(0, m.start() - 12):m.start()]):
                                 continue
+                            if y is x and op <= m.start() <= cl and (y.func_at(m.start()) is None or y.func_at(m.start()).head <= m.start() < y.func_at(m.start()).body_start):
+                                continue      # declarations / definition heads inside the class itself
                             lp = m.end() - 1
                             rp = match_paren(y.bare, lp) if y.bare[lp] == "(" else y.bare.find("}", lp)
                             if rp < 0:
                                 continue
                             args = split_top(y.bare[lp + 1:rp])
-                            if idx >= len(args):
+                            if idx >= len(args) or not args[idx]:
                                 continue
                             am = re.fullmatch(r"(?:this\s*->\s*)?((?:" + IDENT + r"\s*(?:\.|->)\s*)*)(" + IDENT + r")", args[idx])
                             if not am:
